@@ -56,6 +56,16 @@ CHECKS = {
             "instantiate (and import) allowed, import side effects and constructor canaries never fire otherwise; crafted payloads never import "
             "or construct.",
             "DESIGN.md C09", "Known finding: exception groups arrive as a generic stand-in."),
+    "C19": ("exploration",
+            "deterministic simulation: conversations between the real implementation and an independently written reference codec/peer (both directions, plus real<->real with a tap); every frame re-encoded by the reference and compared byte for byte",
+            "Seeded search over request/response exchanges (all 20 handlers' worth of operations, every value shape, packet sizes straddling the "
+            "3000-byte threshold and 64000-byte chunk, compression on either/both ends, seeded fragmentation). The reference side is written from "
+            "the published format with numeric literals; frames of the real side must parse (4-byte big-endian length, flag, newline), compress only "
+            "above the threshold at zlib level 1, decode and re-encode to the identical bytes (documented tags, shortest form), use the published "
+            "kinds/labels/handlers, and mean the same (results checked against local evaluation; the reference server checks which handler each "
+            "client operation used).",
+            "DESIGN.md C19", "The single-value half of the property (one value -> bytes) has no schedule in it and is covered only as part of these "
+            "conversations."),
     "C10": ("exploration",
             "deterministic simulation: seeded histories with the simulator owning the delivery order of the two one-way streams; oracle = refcount ledger, weakrefs, both peers' tables",
             "Seeded search over histories {send again (alone/twice/nested, result or argument), drop, collect, pass back, deliver next frame "
